@@ -141,6 +141,71 @@ func c06RewindRule(c *core.Check, r *core.Rule) {
 		r.Anchor("appends of tokens.Next() in consumeBlocksContent")
 		return
 	}
+	// every token taken from the iterator is collected: from a call of Next() inside a loop, no path leaves the
+	// iteration (to the loop header or out of the loop) without passing an append of that token
+	nNext := 0
+	core.Instrs(fn, func(in ssa.Instruction) {
+		next := isMethod(instrValue(in), "Next")
+		if next == nil {
+			return
+		}
+		l := core.InnermostLoop(fn, next.Block())
+		if l == nil {
+			return
+		}
+		nNext++
+		collects := func(b *ssa.BasicBlock, after ssa.Instruction) bool {
+			seenAfter := after == nil
+			for _, in2 := range b.Instrs {
+				if !seenAfter {
+					if in2 == after {
+						seenAfter = true
+					}
+					continue
+				}
+				for _, col := range collectors {
+					if in2 == ssa.Instruction(col) {
+						for _, op := range core.AppendOperands(col) {
+							if core.DerivesFrom(op, func(v ssa.Value) bool { return v == ssa.Value(next) }) {
+								return true
+							}
+						}
+					}
+				}
+			}
+			return false
+		}
+		lost := ""
+		seen := map[*ssa.BasicBlock]bool{}
+		var walk func(b *ssa.BasicBlock, after ssa.Instruction)
+		walk = func(b *ssa.BasicBlock, after ssa.Instruction) {
+			if after == nil {
+				if seen[b] {
+					return
+				}
+				seen[b] = true
+			}
+			if collects(b, after) {
+				return
+			}
+			for _, s := range b.Succs {
+				if s == l.Header {
+					lost = fmt.Sprintf("block %d -> %d", b.Index, s.Index)
+					continue
+				}
+				if !l.Blocks[s] {
+					// a block that leaves the loop (`…; break`) is not part of the natural loop: it may still collect
+					if !collects(s, nil) {
+						lost = fmt.Sprintf("block %d -> %d", b.Index, s.Index)
+					}
+					continue
+				}
+				walk(s, nil)
+			}
+		}
+		walk(next.Block(), next)
+		r.Cond(lost == "", fmt.Sprintf("css/parser.consumeBlocksContent | token taken by Next() #%d is collected", nNext), p.Pos(next.Pos()), "appended to a collected slice on every path out of the iteration", "a path leaves the iteration ("+lost+") without collecting the token taken from the iterator: the token that stopped the attempt is consumed and dropped, the rule parsed next no longer sees it")
+	})
 	// the ';' collector is the one guarded by IsLiteral(token, ";"): it must come after the others
 	semi := -1
 	for i, col := range collectors {
@@ -562,4 +627,11 @@ func c06ImportantState(c *core.Check) {
 
 func constantInt(k *types.Const) (int64, bool) {
 	return constant.Int64Val(constant.ToInt(k.Val()))
+}
+
+
+// instrValue returns the instruction as a value (nil when it has none).
+func instrValue(in ssa.Instruction) ssa.Value {
+	v, _ := in.(ssa.Value)
+	return v
 }
